@@ -202,6 +202,9 @@ end LiteTag
 
 def writeOk (idm : Bytes) : Bytes := [12, 9] ++ idm ++ [0, 0]
 
+/-- a well-formed response frame (length, response code, IDm, status 00 00) with the given body -/
+def rspFrame (idm : Bytes) (code : Nat) (body : Bytes) : Bytes := [12 + body.length, code + 1] ++ idm ++ [0, 0] ++ body
+
 structure NtagTag where
   pwd : Bytes
   pack : Bytes
